@@ -560,6 +560,16 @@ class Interp:
             return self.compare(op, l, r, n["l"].get("ty", ""))
         if isinstance(l, Lit) and isinstance(r, Lit) and op in "+-*" and isinstance(l.v, int) and isinstance(r.v, int):
             return Lit({"+": l.v + r.v, "-": l.v - r.v, "*": l.v * r.v}[op])
+        # String + &str: concatenation
+        if op == "+" and (n.get("ty") or "").endswith("string::String"):
+            lp = l.parts if isinstance(l, StrCat) else [l]
+            rp = r.parts if isinstance(r, StrCat) else [r]
+            return StrCat(lp + rp)
+        # x + 0, 0 + x, x - 0 are x (results of `usize::from(false)` and the like)
+        if op in "+-" and isinstance(r, Lit) and r.v == 0 and not isinstance(r.v, bool):
+            return l
+        if op == "+" and isinstance(l, Lit) and l.v == 0 and not isinstance(l.v, bool):
+            return r
         return Sym("(%s %s %s)" % (show(l), op, show(r)), n.get("ty"))
 
     def ev_field(self, n, env):
@@ -583,6 +593,9 @@ class Interp:
         m = self.extra_models.get("index")
         if m is not None and (n.get("ty") or "") == "u8":
             return m(self, [b, i], n, env)
+        # coll[coll.iter().position(p).unwrap()] is the element coll.iter().find(p) returns
+        if isinstance(i, Sym) and i.term.endswith("#index") and isinstance(b, Sym) and i.term.startswith("find(%s.iter(), " % b.term):
+            return Sym(i.term[:-len("#index")], n.get("ty"))
         return Sym("%s[%s]" % (show(b), show(i)), n.get("ty"))
 
     def ev_struct(self, n, env):
@@ -1083,6 +1096,45 @@ def _res_map_err(I, a, n, env):
     return o
 
 
+def _from_bool(I, a, n, env):
+    """usize::from(b) / i32::from(b): 1 or 0 (the decision is the boolean's)."""
+    ty = (n.get("ty") or "")
+    aty = (n["args"][0].get("ty") or "") if n.get("args") else ""
+    if aty.lstrip("&") == "bool" and ty in ("usize", "u8", "u16", "u32", "u64", "i32", "i64", "isize"):
+        return Lit(1 if I.truth(a[0]) else 0)
+    return Sym("%s::from(%s)" % (ty, show(a[0])), ty)
+
+
+def _iter_position(I, a, n, env):
+    """it.position(p): the index of the element that it.find(p) returns - same decision, and indexing the collection with
+    it gives that element."""
+    f = Sym("find(%s, %s)" % (show(a[0]), canon_pred(I, a[1])))
+    o = I.open_option(f)
+    if o.name == "Some":
+        return Variant("Some", [Sym(o.args[0].term + "#index", "usize")])
+    return Variant("None")
+
+
+def _res_or(I, a, n, env):
+    """r.or(Err(e)) == r.map_err(|_| e); r.or(Ok(v)): Ok(payload) or Ok(v)."""
+    o = I.open_result(a[0])
+    if o.name == "Err":
+        return a[1]
+    return o
+
+
+def _iter_zip(I, a, n, env):
+    # it.zip(std::iter::repeat(x)) pairs every item with x: the same as it.map(|v| (v, x))
+    m = _re_zip.match(show(a[1]))
+    if m:
+        return Sym("%s.map(|v| (v, %s))" % (show(a[0]), m.group(1)), n.get("ty"))
+    return Sym("%s.zip(%s)" % (show(a[0]), show(a[1])), n.get("ty"))
+
+
+import re as _re_mod
+_re_zip = _re_mod.compile(r"^std::iter::repeat\((.*)\)$")
+
+
 def canon_pred(I, clo):
     """Canonical description of a predicate closure: the atoms under which it is true, obtained by
     exploring its body on a fresh element symbol `$e` (so `a.name == "to"` and `"to" == x.name` agree)."""
@@ -1266,9 +1318,14 @@ MODELS = {
     "std::result::Result::expect": _res_unwrap,
     "std::result::Result::ok": _res_ok,
     "std::result::Result::map_err": _res_map_err,
+    "std::result::Result::or": _res_or,
+    "std::convert::From::from": _from_bool,
+    "std::iter::Iterator::position": _iter_position,
+    "std::iter::Iterator::zip": _iter_zip,
     "std::collections::HashMap::get": _map_get,
     "std::collections::HashSet::contains": _set_contains,
     "std::vec::Vec::new": _vec_new,
+    "std::vec::Vec::with_capacity": _vec_new,          # the capacity hint is never observable
     "std::ops::Range::contains": _range_contains,
     "core::ops::Range::contains": _range_contains,
     "std::cmp::Ord::min": _ord_min,
@@ -1276,6 +1333,7 @@ MODELS = {
     "std::cmp::min": _ord_min,
     "std::cmp::max": _ord_max,
     "std::string::String::new": _string_new,
+    "std::string::String::with_capacity": _string_new,
     "std::string::String::push": _str_push,
     "std::string::String::push_str": _str_push,
     "std::string::String::as_str": _transparent,
